@@ -190,6 +190,12 @@ impl Report {
         }
     }
 
+    /// A part of the run could not be carried out (a set-up step did not succeed): a machinery error at the end
+    /// of the run - unless the run found a violation elsewhere, which then is what gets reported.
+    pub fn inconclusive(&self, what: &str) {
+        self.vacuity.lock().unwrap().push(format!("inconclusive: {what}"));
+    }
+
     /// Writes evidence, replay files, prints VIOLATION / KNOWN-FINDING lines and exits.
     pub fn finish(self) -> ! {
         let wall = self.start.elapsed().as_secs_f64();
